@@ -136,7 +136,11 @@ CHECKS.update({
              'FailPublishesNothing, WorkDirs. The same crash points (os._exit before operation k) and torn prefixes of '
              'every written file are then produced for real; a fresh interpreter must find either no result and '
              'recompute, or the complete value, and a second request must succeed.',
-        note='Python-level file operations; fsync/durability not modelled; FigureData/H5Data not exercised.'),
+        note='Also: every operation made to FAIL (OSError) instead of the process dying; runs interrupted by KeyboardInterrupt; '
+             'the same failure twice in a row; in-memory tasks; fault SEQUENCES (the recovering process dies too: recovery '
+             'protocols recorded on the crashed directories go through StoreSteps again); specs/Resumable.tla for the work '
+             'directories of resumable tasks. Python-level file operations; fsync/durability not modelled; 9 data kinds incl. '
+             'FigureData; H5Data not exercised.'),
 })
 
 CHECKS.update({
@@ -307,6 +311,21 @@ def main():
             {'name': 'resolve', 'path': '/verif/specs/Resolve.tla', 'serves_properties': ['C08', 'C09'],
              'kind_free_text': 'TLA+ property-level semantics of config forests; TLC enumerates forests as initial '
                                'states and prints expected resolutions; harness/tcverif/resolve_check.py binds'},
+            {'name': 'resolveimpl', 'path': '/verif/specs/ResolveImpl.tla', 'serves_properties': ['C08', 'C09'],
+             'kind_free_text': 'TLA+ implementation level: the stages of Chain._prepare on name texts; TLC checks ImplConforms '
+                               '(= Resolve) on every forest; vacuity guards with the pinned prefix test and by-class lookup'},
+            {'name': 'nameshist', 'path': '/verif/specs/NamesHist.tla', 'serves_properties': ['C10'],
+             'kind_free_text': 'TLA+ state machine of a task registry (add / remove / lookup); behaviours stepped through a real '
+                               'InputTasks'},
+            {'name': 'naming', 'path': '/verif/specs/Naming.tla', 'serves_properties': ['C12'],
+             'kind_free_text': 'TLA+ class -> group:name -> directory rules (Meta inheritance, ModuleTask, DoubleModuleTask); '
+                               'harness/tcverif/naming_check.py creates the classes'},
+            {'name': 'cachetrace', 'path': '/verif/specs/CacheTrace.tla', 'serves_properties': ['C15'],
+             'kind_free_text': 'trace specification over Cache.tla: executions of free-running PROCESSES recorded under the '
+                               'lock (harness/tcverif/cache_procs.py) validated by TLC in batch, all invariants at every step'},
+            {'name': 'resumable', 'path': '/verif/specs/Resumable.tla', 'serves_properties': ['C05'],
+             'kind_free_text': 'TLA+ model of resumable results (work directory kept until finished / deleted, forced until '
+                               'finished); behaviours stepped through real ContinuesData tasks'},
             {'name': 'names', 'path': '/verif/specs/Names.tla', 'serves_properties': ['C10'],
              'kind_free_text': 'TLA+ name resolution, token level vs character-level transcription of the code'},
             {'name': 'keys', 'path': '/verif/specs/KeyScheme.tla', 'serves_properties': ['C02', 'C03', 'C12'],
